@@ -9,7 +9,7 @@
 From Coq Require Import List ZArith String Bool.
 Import ListNotations.
 Require Import Naga.Base.Bits32 Naga.Base.F32 Naga.IR.Values Naga.Msl.Syntax Naga.Msl.Ops Naga.Msl.Sem
-               Naga.Msl.Catalogue Naga.Msl.CatalogueProofs Naga.Msl.CatalogueTie Naga.Gen.MslOpTable.
+               Naga.Msl.Catalogue Naga.Msl.CatalogueProofs Naga.Msl.FloatConv Naga.Msl.FloatConvProofs Naga.Msl.CatalogueTie Naga.Gen.MslOpTable.
 Open Scope string_scope.
 Open Scope Z_scope.
 
@@ -151,6 +151,21 @@ Theorem c04_refuted_entries :
   (exists a1 a2 b1 b2, in32 a1 /\ in32 a2 /\ in32 b1 /\ in32 b2 /\ run2 [h_dot SInt 2] (t_call2 "naga_dot_int2") (VVec [VI32 a1; VI32 a2]) (VVec [VI32 b1; VI32 b2]) = Fail "UB: signed overflow" /\ dot_vals [VI32 a1; VI32 a2] [VI32 b1; VI32 b2] = Done (VI32 (add32 (mul32 a1 b1) (mul32 a2 b2)))).
 Proof. exact (conj msl_firstleadingbit_u32_refuted (conj msl_round_f32_refuted (conj msl_conv_f32_i32_refuted (conj msl_conv_f32_u32_refuted msl_dot_i32_refuted)))). Qed.
 Print Assumptions c04_refuted_entries.
+
+(* float -> integer conversion helpers, from their bodies: total on every input (no undefined behaviour: C15) and equal
+   to the WGSL value below the saturation bound; at and above it see c04_refuted_entries *)
+Theorem c04_float_to_int_helpers :
+  (forall a, exists v, in32 v /\ run1 [h_f2i32 1] (t_call1 "naga_f2i32") (VF32 a) = Done (VI32 v)) /\
+  (forall a, exists v, in32 v /\ run1 [h_f2u32 1] (t_call1 "naga_f2u32") (VF32 a) = Done (VU32 v)) /\
+  (forall a, is_nan_bits a = false -> flt F_HI a = false ->
+     run1 [h_f2i32 1] (t_call1 "naga_f2i32") (VF32 a) = Done (VI32 (i32_of_f32 a))) /\
+  (forall a, flt F_UHI a = false ->
+     run1 [h_f2u32 1] (t_call1 "naga_f2u32") (VF32 a) = Done (VU32 (u32_of_f32 a))).
+Proof.
+  exact (conj msl_conv_f32_i32_total (conj msl_conv_f32_u32_total
+        (conj msl_conv_f32_i32_correct_below_2p31 msl_conv_f32_u32_correct_below_2p32))).
+Qed.
+Print Assumptions c04_float_to_int_helpers.
 
 (* non-vacuity: concrete instances at the boundaries; the un-wrapped forms really are undefined in the strict semantics *)
 Example c04_example_add_wraps :
